@@ -977,6 +977,15 @@ class Interp:
         if isinstance(a, str) or isinstance(b, str):
             if isinstance(op, ast.Add) and isinstance(a, str) and isinstance(b, str):
                 return a + b
+            if isinstance(op, ast.Mod) and isinstance(a, str):
+                vals = tuple(b) if isinstance(b, (tuple, list)) else (b,)
+                if all(isinstance(x, (str, int)) and not isinstance(x, bool) for x in vals):
+                    try:
+                        return a % vals
+                    except (TypeError, ValueError):
+                        pass
+            if isinstance(op, ast.Mult) and isinstance(a, str) and isinstance(b, int):
+                return a * b
             raise Unsupported("string arithmetic")
         if isinstance(a, (list, tuple)) and isinstance(b, (list, tuple)) \
                 and isinstance(op, ast.Add) and not _numeric_seq(a):
